@@ -332,6 +332,13 @@ func c16Prop(c *sim.Case) {
 	// the workloads the first reconcile comes a little after the first requests (the controller manager and the gRPC
 	// server start side by side), so that logins meet a filter whose secret has not arrived yet
 	lateSecret := sim.Weighted(c, "secret-arrives-late", 2, 1) == 1
+	// controller-runtime runs one reconcile of a controller at a time (MaxConcurrentReconciles = 1): so does the harness
+	var reconcileMu sync.Mutex
+	reconcile := func(key types.NamespacedName) {
+		reconcileMu.Lock()
+		defer reconcileMu.Unlock()
+		_, _ = secCtl.Reconcile(ctx, ctrl.Request{NamespacedName: key})
+	}
 	for _, t := range tenants {
 		if t.secRef {
 			_ = kc.Create(ctx, &corev1.Secret{ObjectMeta: metav1.ObjectMeta{Namespace: "default", Name: "sec-" + t.name}, Data: map[string][]byte{"client-secret": []byte(t.secret)}})
@@ -342,10 +349,10 @@ func c16Prop(c *sim.Case) {
 				go func() {
 					time.Sleep(delay)
 					// (a reconcile that never returns shows in the checks that then wait behind it)
-					_, _ = secCtl.Reconcile(ctx, ctrl.Request{NamespacedName: key})
+					reconcile(key)
 				}()
 			} else {
-				_, _ = secCtl.Reconcile(ctx, ctrl.Request{NamespacedName: key})
+				reconcile(key)
 			}
 		}
 	}
@@ -500,7 +507,7 @@ func c16Prop(c *sim.Case) {
 					}
 					// same value re-applied: the provider keeps accepting it; what matters is the write
 					key := types.NamespacedName{Namespace: "default", Name: "sec-" + t.name}
-					_, _ = secCtl.Reconcile(ctx, ctrl.Request{NamespacedName: key})
+					reconcile(key)
 					atomic.AddInt64(&bgFired, 1)
 				}
 			}
